@@ -356,10 +356,13 @@ class MixtureOfGaussiansMADE(MADE):
 
         if context is not None:
             context = torchutils.repeat_rows(context, num_samples)
+            num_rows = context.shape[0]
+        else:
+            num_rows = num_samples
 
         with torch.no_grad():
 
-            samples = torch.zeros(context.shape[0], self.features)
+            samples = torch.zeros(num_rows, self.features)
 
             for feature in range(self.features):
                 outputs = self.forward(samples, context)
@@ -382,9 +385,11 @@ class MixtureOfGaussiansMADE(MADE):
                     stds.gather(1, components).reshape(-1),
                 )
                 samples[:, feature] = (
-                    means + torch.randn(context.shape[0]) * stds
+                    means + torch.randn(num_rows) * stds
                 ).detach()
 
+        if context is None:
+            return samples
         return samples.reshape(-1, num_samples, self.features)
 
     def _initialize(self):
